@@ -293,6 +293,8 @@ def scenarios(tier, seed, routine=None):
         scs += [
             dict(base, label="D", script=[(1, "term"), (1, "trunc"), (5, "term")], budget=24, start=2, eplimit=5, warm=7, cap=50),
             dict(base, label="E", script=[(6, "trunc"), (2, "term")], budget=21, start=0, eplimit=0, warm=8, seed=seed % 1000 + 7),
+            # one long episode: the budget ends mid-episode and no episode ever ends
+            dict(base, label="L", script=[(50, "term")], budget=13, start=0, eplimit=0, warm=4),
         ]
     return scs
 
